@@ -145,6 +145,7 @@ def run(ctx):
     ctx.rule(names)
     ctx.rule(stateless)
     ctx.rule(total_on_domain)
+    ctx.rule(piecewise_dtype)
     ctx.info["exhaustive"] = False
 
 
@@ -332,3 +333,45 @@ def total_on_domain(ctx, R="R-C19/total"):
                           "%s.%s raises when %s, which holds on %s inside the domain %s: the round trip fails there" % (c.name, meth, S.show(g2)[:80], sub, dom))
             if not ev.raises:
                 ctx.ok(R, f.loc(), "%s.%s raises for no value of its domain" % (c.name, meth))
+
+
+
+def piecewise_dtype(ctx, R="R-C19/piecewise-dtype"):
+    """numpy.piecewise returns an array of the dtype of its first argument.  A map that feeds it the caller's value as it came
+    (np.asarray(x) keeps an integer an integer) truncates every piece to an integer for integer arguments - scale_to_hertz(1)
+    is then the value for 0.x truncated - so the first argument must be made floating first."""
+    prog = ctx.prog
+    n = 0
+    for c in [k for k in prog.subclasses(prog.cls("scales.ScalingFunction")) if prog.is_concrete(k)]:
+        for meth in ("hertz_to_scale", "scale_to_hertz"):
+            f = prog.find_method(c, meth)
+            if f is None:
+                continue
+            for call in astq.func_calls(f):
+                if (prog.qualify(f.module, call.func, f) or "") != "numpy.piecewise" or not call.args:
+                    continue
+                n += 1
+                a = call.args[0]
+                # follow one local definition
+                exprs = [a]
+                if isinstance(a, ast.Name):
+                    exprs = [st.value for st in f.body_nodes() if isinstance(st, ast.Assign) and any(astq.is_name(t, a.id) for t in st.targets)] or [a]
+
+                def floating(e):
+                    if isinstance(e, ast.Call):
+                        q = prog.qualify(f.module, e.func, f) or ""
+                        dt = astq.kw(e, "dtype") or (e.args[1] if len(e.args) > 1 and q in ("numpy.asarray", "numpy.array", "numpy.asanyarray") else None)
+                        if dt is not None and astq.text(dt) in ("float", "np.float64", "numpy.float64", "np.double", "'float64'", "np.float_"):
+                            return True
+                        if isinstance(e.func, ast.Attribute) and e.func.attr == "astype" and e.args and astq.text(e.args[0]) in ("float", "np.float64", "numpy.float64"):
+                            return True
+                        if astq.is_name(e.func, "float"):
+                            return True
+                    if isinstance(e, ast.BinOp) and any(isinstance(x, ast.Constant) and isinstance(x.value, float) for x in (e.left, e.right)):
+                        return True
+                    return False
+                ctx.check(all(floating(e) for e in exprs), R, f, call, "the value handed to numpy.piecewise is floating (the result takes its dtype)",
+                          "%s.%s passes %s to numpy.piecewise; for an integer argument every piece is truncated to an integer, so the map is neither the "
+                          "published formula nor invertible there" % (c.name, meth, astq.text(exprs[0])[:50]))
+    if not n:
+        ctx.ok(R, "src/pydrobert/speech/scales.py", "no numpy.piecewise in the scale maps (scalar formulas keep Python float arithmetic)")
